@@ -297,6 +297,9 @@ def materialise(desc) -> Structure:
             u = u / (np.linalg.norm(u) or 1.0)
             u = u + ssb.get("tiltw", 0.3) * np.asarray(ssb.get("tilt", [0, 0, 0]), float)
             u = u / (np.linalg.norm(u) or 1.0)
+            if ssb.get("dir") is not None:  # explicit direction (axis-aligned placement grids)
+                u = np.asarray(ssb["dir"], float)
+                u = u / np.linalg.norm(u)
             sg2 = res[ssb["own"]]["atoms"]["SG"]
             shift = sg1 + ssb["d"] * u - sg2
         elif con is not None and placed_xyz:
